@@ -78,4 +78,11 @@ theorem respond_v1 : Nsq.Gen.Proto.respondV1Stmts = [
   "if code == 200", "assign isJSON = true", "assign code = 500", "if code != 200", "assign isJSON = true",
   "if isJSON"] := rfl
 
+/-- (semantic) `http_api.NewReqParams` parses the query string and reads NOTHING of the request body (fix F33 = /repo
+894b9eb, committed: `Model.HttpBody.bodyRead`, the `R` column of the `httpb` leg). The shape before F33
+(`["ParseQuery", "ReadAll"]`: `bodyReadOld`, `Props.C10Char.body_read_bounded_false_before_F33`) is not accepted (audit
+B12): with F33 reverted this tie breaks and the replay corpus/C10/fixed/admin_body_unbounded.opsb reports
+`admin-body-unbounded` (listed `fixed`) as a VIOLATION. -/
+theorem newReqParams_reads_no_body : Nsq.Gen.Proto.newReqParamsCalls = ["ParseQuery"] := rfl
+
 end Nsq.Tie.ProtoHttpFull
